@@ -38,11 +38,17 @@ Definition sk_release_serving : stmt :=
 
 (* _cpwsgi.AppResponse.__init__ *)
 Definition sk_appresponse_init : stmt :=
-  Try (Seq (Call F_appresponse_run) (Seq (If (CNot (CFlag FStatusIsBytes)) (Raise (Some XException)) (Skip)) (Seq (ForLoop (Seq (If (CNot (CFlag FHeaderKeyIsBytes)) (Raise (Some XException)) (Skip)) (If (CNot (CFlag FHeaderValIsBytes)) (Raise (Some XException)) (Skip)))) (Seq (Act IterBody) (Act StartResponse))))) [(PBaseException, Seq (Call F_appresponse_close) (Raise None))] (Skip) (Skip).
+  Try (Seq (Call F_appresponse_run) (Seq (If (CNot (CFlag FStatusIsBytes)) (Raise (Some XException)) (Skip)) (Seq (ForLoop (Seq (If (CNot (CFlag FHeaderKeyIsBytes)) (Raise (Some XException)) (Skip)) (If (CNot (CFlag FHeaderValIsBytes)) (Raise (Some XException)) (Skip)))) (Seq (Act IterBody) (Act StartResponse))))) [(PBaseException, Seq (Call F_appresponse_close_init) (Raise None))] (Skip) (Skip).
 
 (* _cpwsgi.AppResponse.close *)
 Definition sk_appresponse_close : stmt :=
   Seq (Assign FStreaming) (Seq (Call F_release_serving) (If (CFlag FStreaming) (Try (Act IterClose) [(PException, Skip)] (Skip) (Skip)) (Skip))).
+
+(* _cpwsgi.AppResponse.close as called from AppResponse.__init__'s except clause: self.iter_response may not
+   exist yet.  (When the server calls close(), __init__ has returned, so the attribute exists: an object whose
+   __init__ raised is never handed to the caller.) *)
+Definition sk_appresponse_close_init : stmt :=
+  Seq (Assign FStreaming) (Seq (Call F_release_serving) (If (CFlag FStreaming) (Seq (Act ReadIterResponse) (Try (Act IterClose) [(PException, Skip)] (Skip) (Skip))) (Skip))).
 
 (* _cpwsgi.AppResponse.run *)
 Definition sk_appresponse_run : stmt :=
@@ -80,6 +86,7 @@ Definition prog (f : fname) : stmt :=
   | F_release_serving => sk_release_serving
   | F_appresponse_init => sk_appresponse_init
   | F_appresponse_close => sk_appresponse_close
+  | F_appresponse_close_init => sk_appresponse_close_init
   | F_appresponse_run => sk_appresponse_run
   | F_redirector_call => sk_redirector_call
   | F_trap_init | F_trap_next => sk_trap
